@@ -84,10 +84,19 @@ def main():
                 results.append((name, pids, "patch does not apply: " + a.stderr[:200]))
                 continue
             try:
+                verdicts = []
                 for pid in pids:
                     code, viol, secs, out = run_check(pid, tier, None if TARGET == REPO else TARGET)
                     results.append((name, pid, f"exit={code} {viol[0] if viol else 'NO VIOLATION'} ({secs}s)"))
                     touched.add(pid)
+                    v = "missed" if code == 0 else ("error/timeout" if code not in (0, 1) else ("VIOLATION no-failing-input-found" if viol and viol[0].endswith("no-failing-input-found") else "VIOLATION"))
+                    verdicts.append(f"{pid}: {v}")
+                # record in the meta file: `first_run` once, `now` every time
+                mp = os.path.join(sdir, name, "meta.json")
+                meta = json.load(open(mp))
+                meta.setdefault("first_run", "; ".join(verdicts))
+                meta["now"] = "; ".join(verdicts)
+                json.dump(meta, open(mp, "w"), indent=1)
             finally:
                 sh("git", "-C", TARGET, "checkout", "--", ".")
     else:
